@@ -194,15 +194,20 @@ def _raised_inside_library(exc):
     if type(exc).__name__ in ("TLCError", "NotObservable", "Unrepresentable", "TapeMismatch", "TapeExhausted", "Boom") \
             or isinstance(exc, (KeyboardInterrupt, MemoryError, ImportError)):
         return None
-    tb = exc.__traceback__
-    last = None
-    while tb is not None:
-        last = tb
-        tb = tb.tb_next
-    if last is None:
-        return None
-    fn = os.path.realpath(last.tb_frame.f_code.co_filename)
+    # the deepest frame that belongs either to the library or to this framework decides: an exception raised by the
+    # library itself or by something the library called (NumPy, the standard library) is the library's; one raised by a
+    # harness callback the library called (model, loss, storage proxies) or by the harness itself is not
     lib = os.path.realpath(os.path.join(REPO, "ixai")) + os.sep
-    if fn.startswith(lib):
-        return "%s:%s" % (fn[len(lib):], last.tb_frame.f_code.co_name)
+    own = os.path.realpath(VERIF) + os.sep
+    tb = exc.__traceback__
+    decisive = None
+    while tb is not None:
+        fn = os.path.realpath(tb.tb_frame.f_code.co_filename)
+        if fn.startswith(lib):
+            decisive = ("lib", "%s:%s" % (fn[len(lib):], tb.tb_frame.f_code.co_name))
+        elif fn.startswith(own):
+            decisive = ("own", None)
+        tb = tb.tb_next
+    if decisive and decisive[0] == "lib":
+        return decisive[1]
     return None
